@@ -856,6 +856,8 @@ class Interp:
         last = dotted.split('.')[-1]
         if dotted.startswith('numpy.'):
             return NPFunc(last)
+        if last in ('coo_array', 'coo_matrix', 'csr_matrix', 'csc_array', 'csc_matrix') and dotted.startswith('scipy.sparse'):
+            return Builtin('csr_array')     # the triplet form builds the same matrix (duplicates summed) in every sparse format
         if last in ('csr_array', 'spsolve', 'use_solver', 'warn', 'deepcopy', 'overload', 'Callable'):
             return Builtin(last)
         return Builtin('ext:' + dotted)
@@ -930,8 +932,10 @@ class Interp:
                 return Rat.const(2)
             if name == 'shape':
                 return obj.shape
-            if name == 'copy':
-                return ArrMethod(obj, 'copy')
+            if name in ('copy', 'tocsr', 'tocoo', 'tocsc', 'asformat', 'sum_duplicates', 'eliminate_zeros_x'):
+                return ArrMethod(obj, name)
+            if name == 'format':
+                return AStr('csr')
             raise AnalysisError(f"sparse attribute {name}")
         if isinstance(obj, Rat):
             if name == 'ndim':
@@ -1310,6 +1314,13 @@ class Interp:
         return self.subscript(base, key, e.lineno)
 
     def subscript(self, base, key, lineno=None):
+        if isinstance(base, NPFunc) and base.name == 'r_':
+            # np.r_[a, b, c] of arrays / scalars: concatenation along the first axis (no slice / string forms)
+            ks = list(key) if isinstance(key, tuple) else [key]
+            if any(isinstance(k, (Sl, str)) for k in ks):
+                raise AnalysisError("np.r_ with a slice or string directive")
+            from .npmodel import call_np
+            return call_np(self, 'hstack', [ks], {}, lineno)
         if isinstance(base, (tuple, list)):
             if isinstance(key, Sl):
                 lo = None if key.lo is None else R(key.lo).as_int()
